@@ -57,6 +57,8 @@ type provWalker struct {
 	seen    map[ssa.Value]bool
 	out     map[string]Origin
 	callers map[*ssa.Function][]*ssa.CallCommon
+	// newDepth counts the nested new functions (see inventory.go) being looked through
+	newDepth int
 }
 
 // Origins computes the origin set of v.
@@ -364,6 +366,30 @@ func (w *provWalker) walkCallResult(tuple ssa.Value, idx int, depth int, v ssa.V
 		}
 		return
 	}
+	if h := Impl(call.Common().StaticCallee()); Transparent(h) && w.newDepth < 4 {
+		// a function the inventory does not list: the value is whatever it returns
+		w.newDepth++
+		n := 0
+		for _, b := range h.Blocks {
+			if b == h.Recover || len(b.Instrs) == 0 {
+				continue
+			}
+			if ret, ok := AsReturn(b.Instrs[len(b.Instrs)-1]); ok {
+				i := idx
+				if i < 0 {
+					i = 0
+				}
+				if i < len(ret.Results) {
+					n++
+					w.walk(Res(ret, i), depth)
+				}
+			}
+		}
+		w.newDepth--
+		if n > 0 {
+			return
+		}
+	}
 	w.add("call", k, v)
 	if w.opts.IntoModuleCalls && depth > 0 {
 		if fn := call.Common().StaticCallee(); fn != nil && InModule(fn) && fn.Blocks != nil {
@@ -393,6 +419,19 @@ func (w *provWalker) walkParam(x *ssa.Parameter, depth int) {
 		}
 	}
 	desc := fmt.Sprintf("%s#%d(%s)", FuncKey(fn), idx, x.Name())
+	if Transparent(fn) && w.opts.Prog != nil && w.newDepth < 4 && idx >= 0 {
+		// a parameter of a function the inventory does not list: what its call sites pass
+		if sites := w.opts.Prog.StaticCallers(fn); len(sites) > 0 {
+			w.newDepth++
+			for _, cs := range sites {
+				if idx < len(cs.Args) {
+					w.walk(cs.Args[idx], depth)
+				}
+			}
+			w.newDepth--
+			return
+		}
+	}
 	if depth <= 0 || w.opts.Prog == nil {
 		w.add("param", desc, x)
 		return
@@ -414,11 +453,13 @@ func (w *provWalker) walkParam(x *ssa.Parameter, depth int) {
 func (p *Prog) StaticCallers(fn *ssa.Function) []*ssa.CallCommon {
 	p.callersOnce.Do(func() {
 		p.callers = map[*ssa.Function][]*ssa.CallCommon{}
+		p.callInstr = map[*ssa.CallCommon]ssa.CallInstruction{}
 		for _, f := range append(append([]*ssa.Function{}, p.ModFns...), p.Wrappers()...) {
 			for _, b := range f.Blocks {
 				for _, in := range b.Instrs {
 					if ci, ok := in.(ssa.CallInstruction); ok {
 						if callee := ci.Common().StaticCallee(); callee != nil {
+							p.callInstr[ci.Common()] = ci
 							p.callers[callee] = append(p.callers[callee], ci.Common())
 							if o := callee.Origin(); o != nil && o != callee {
 								p.callers[o] = append(p.callers[o], ci.Common())
@@ -430,4 +471,10 @@ func (p *Prog) StaticCallers(fn *ssa.Function) []*ssa.CallCommon {
 		}
 	})
 	return p.callers[fn]
+}
+
+// CallInstr returns the instruction of a call site returned by StaticCallers.
+func (p *Prog) CallInstr(site *ssa.CallCommon) ssa.CallInstruction {
+	p.StaticCallers(nil)
+	return p.callInstr[site]
 }
